@@ -74,3 +74,47 @@ Proof.
   destruct (dims v) as [|d0 [|d1 [|? ?]]]; try reflexivity.
   all: destruct (strides v) as [|s0 [|s1 [|? ?]]]; reflexivity.
 Qed.
+
+(* T() of a matrix (a link to *this, then in_place_transpose()) and reshape(dims) of a vector *)
+Definition gen_transpose (v : view) : view :=
+  match dims v, strides v with
+  | [d0; d1], [s0; s1] => mkView (base v) [tr_d0 d0 d1 s0 s1; tr_d1 d0 d1 s0 s1] [tr_s0 d0 d1 s0 s1; tr_s1 d0 d1 s0 s1]
+  | _, _ => v
+  end.
+Fixpoint gen_reshape_strides (nd : list Z) (s0 : Z) : list Z :=
+  match nd with
+  | [] => []
+  | [d] => [rs_last s0]
+  | d :: (d' :: _) as rest =>
+      match gen_reshape_strides rest s0 with
+      | s' :: ss => rs_step d' s' :: s' :: ss
+      | [] => []
+      end
+  end.
+Definition gen_reshape (v : view) (nd : list Z) : view :=
+  match strides v with
+  | [s0] => mkView (base v) nd (gen_reshape_strides nd s0)
+  | _ => v
+  end.
+
+Lemma gen_transpose_eq : forall v, gen_transpose v = transpose v.
+Proof.
+  intros v. unfold gen_transpose, transpose.
+  destruct (dims v) as [|d0 [|d1 [|? ?]]]; try reflexivity.
+  all: destruct (strides v) as [|s0 [|s1 [|? ?]]]; reflexivity.
+Qed.
+Lemma gen_reshape_strides_eq : forall nd s0, gen_reshape_strides nd s0 = reshape_strides nd s0.
+Proof.
+  induction nd as [|d nd IH]; intros s0; [reflexivity|].
+  destruct nd as [|d' nd']; [reflexivity|].
+  change (gen_reshape_strides (d :: d' :: nd') s0) with
+    (match gen_reshape_strides (d' :: nd') s0 with s' :: ss => rs_step d' s' :: s' :: ss | [] => [] end).
+  change (reshape_strides (d :: d' :: nd') s0) with
+    (match reshape_strides (d' :: nd') s0 with s' :: ss => d' * s' :: s' :: ss | [] => [] end).
+  rewrite IH. destruct (reshape_strides (d' :: nd') s0); reflexivity.
+Qed.
+Lemma gen_reshape_eq : forall v nd, gen_reshape v nd = reshape v nd.
+Proof.
+  intros v nd. unfold gen_reshape, reshape.
+  destruct (strides v) as [|s0 [|? ?]]; try reflexivity. all: rewrite gen_reshape_strides_eq; reflexivity.
+Qed.
